@@ -41,10 +41,11 @@ CbCall(c, args) ==
   /\ IF stack = <<>> THEN FALSE ELSE (Top.phase = "entered" /\ c \in Top.cbs)
   /\ Push([f |-> c, args |-> args, mr |-> FALSE, phase |-> "called", ret |-> "-", cbs |-> {}, dead |-> {}])
   /\ UNCHANGED <<rejected, entered>>
-\* the callee releases callback c (its destructor runs): once, while or after the body runs, never while c itself is running
+\* the callee releases callback c (its destructor runs): once, while or after the body runs, never while c itself is running;
+\* the callbacks of a call the binding refuses are released by the binding itself, without the call ever reaching Rust
 CbDrop(c) ==
   /\ stack # <<>>
-  /\ IF stack = <<>> THEN FALSE ELSE (Top.phase \in {"entered", "returned"} /\ c \in Top.cbs)
+  /\ IF stack = <<>> THEN FALSE ELSE ((Top.phase \in {"entered", "returned"} \/ (Top.phase = "called" /\ Top.mr)) /\ c \in Top.cbs)
   /\ SetTop([Top EXCEPT !.cbs = @ \ {c}, !.dead = @ \cup {c}])
   /\ UNCHANGED <<rejected, entered>>
 \* the binding refuses the call before it reaches Rust
@@ -69,7 +70,7 @@ CReturn(f, ret) ==
   /\ IF stack = <<>> THEN FALSE
      ELSE /\ f = Top.f
           /\ \/ (Top.phase = "returned" /\ ~rejected /\ ret = Top.ret /\ Top.cbs = {} /\ UNCHANGED rejected)
-             \/ (Top.phase = "called" /\ rejected /\ ret = "err(utf8)" /\ rejected' = FALSE)
+             \/ (Top.phase = "called" /\ rejected /\ ret = "err(utf8)" /\ Top.cbs = {} /\ rejected' = FALSE)
   /\ Pop /\ UNCHANGED entered
 Next == \E f \in {"f", "c1", "c2"}, a \in {"x", "y"} :
           \/ \E m \in BOOLEAN, cs \in SUBSET {"c1", "c2"} : f = "f" /\ CCallCb(f, a, m, cs)
